@@ -72,12 +72,14 @@ MetaBad(t, G) == MetaBadAt(t, "r")
 (* Expansion-depthing mode (Grammar(expansion_depthing=True)): every base   *)
 (* value and field-less node counts 1, every abstract layer between the     *)
 (* declared field type and the concrete class of the value adds one, and so *)
-(* does every list.  Defined for fields that are symbols, (refined) base    *)
-(* values, unions, tuples (opaque) and lists.                               *)
+(* does every list.  Defined for fields that are (refined) symbols, (refined) *)
+(* base values, unions, tuples (opaque) and lists.                          *)
 RECURSIVE LevelsUp(_, _, _)
 LevelsUp(G, c, a) == IF c = a \/ ~Known(G, c) \/ Parent(G, c) = "" THEN 0 ELSE 1 + LevelsUp(G, Parent(G, c), a)
+\* a refined non-terminal field (Annotated[Expr, refinement]) is still declared with the type Expr
+Bare(f) == IF f.k = "ann" /\ Len(f.es) = 1 THEN f.es[1] ELSE f
 Adj(G, f, c) == IF c.k = "list" THEN 1
-                ELSE IF f.k = "sym" /\ Known(G, f.s) /\ IsAbs(G, f.s) /\ c.k = "node" THEN LevelsUp(G, c.ty, f.s)
+                ELSE IF Bare(f).k = "sym" /\ Known(G, Bare(f).s) /\ IsAbs(G, Bare(f).s) /\ c.k = "node" THEN LevelsUp(G, c.ty, Bare(f).s)
                 ELSE 0
 NoForm == [k |-> "none", s |-> "", es |-> <<>>, mh |-> [k |-> "none"]]
 KidForm(G, t, i) == IF t.k = "node" /\ Known(G, t.ty) /\ i \in DOMAIN Fields(G, t.ty) THEN Fields(G, t.ty)[i].f ELSE NoForm
